@@ -197,9 +197,25 @@ func (x *Exec) havocCall(st *State, sig *types.Signature, hint string) Val {
 	vc := x.vc
 	as := arraySort(SInt, SBool)
 	old := vc.heapGet(st, "$alloc", as)
+	// locations the function under verification declares as its own (opt protect ...): calls with
+	// unknown effects are assumed not to touch them (reported as an assumption)
+	type kept struct {
+		t   modTarget
+		old Term
+	}
+	var keeps []kept
+	for _, t := range x.protect {
+		keeps = append(keeps, kept{t, Select(vc.heapGet(st, t.key, t.sort), t.ref)})
+	}
+	for _, t := range st.private {
+		keeps = append(keeps, kept{t, Select(vc.heapGet(st, t.key, t.sort), t.ref)})
+	}
 	vc.epochSeq++
 	st.epoch = vc.epochSeq
 	st.heap = map[string]Term{}
+	for _, k := range keeps {
+		vc.assume(st.pc, Eq(Select(vc.heapGet(st, k.t.key, k.t.sort), k.t.ref), k.old))
+	}
 	nh := vc.heapGet(st, "$alloc", as)
 	vc.assert(raw(fmt.Sprintf("(forall ((r Int)) (! (=> (select %s r) (select %s r)) :pattern ((select %s r))))", old.S, nh.S, nh.S), SBool))
 	for k := range st.ghost {
